@@ -49,6 +49,8 @@ def strategy_impl(draw, tier):
         "fill": draw(gen.fill_values),
         "bsrc": draw(st.sampled_from(["grid", "call"])),
         "drop_facedim": draw(st.booleans()),
+        "face_order": list(draw(st.permutations(list(range(Kx * Ky))))),
+        "reverse_axes": draw(st.booleans()),
     }
 
 
@@ -92,7 +94,7 @@ def check(case, ctx):
     ds = xr.Dataset(coords=coords)
     gc = {"X": {"center": "xc", "left": "xl"}, "Y": {"center": "yc", "left": "yl"}}
     kw = {"boundary": case["boundary"], "fill_value": case["fill"]} if case["bsrc"] == "grid" else {}
-    fc = gen.table_to_xgcm(table_json(table)) if has_links else None
+    fc = gen.table_to_xgcm(table_json(table), face_order=case.get("face_order"), reverse_axes=case.get("reverse_axes", False)) if has_links else None
     grid = must_return("Grid construction", Grid, ds, coords=gc, face_connections=fc, autoparse_metadata=False, periodic=False, **kw)
     ckw = {"boundary": case["boundary"], "fill_value": case["fill"]} if case["bsrc"] == "call" else {}
 
